@@ -94,14 +94,90 @@ func (c *Ctx) ruleRetryRequeue(rr *RuleRep, rr18 *RuleRep, modeOpt ...string) {
 		}
 		invs = append(invs, inv{call, ia.Index})
 	})
+	// pop form: `for len(p) > 0 { p[0](…); p = p[1:] }` with p = phi(snapshot, p[1:])
+	var cursor *ssa.Phi
+	if len(invs) == 0 {
+		eachInstr(f, func(in ssa.Instruction) {
+			call, ok := in.(*ssa.Call)
+			if !ok || call.Call.IsInvoke() {
+				return
+			}
+			ld, ok := call.Call.Value.(*ssa.UnOp)
+			if !ok || ld.Op != token.MUL {
+				return
+			}
+			ia, ok := ld.X.(*ssa.IndexAddr)
+			if !ok {
+				return
+			}
+			phi, ok := ia.X.(*ssa.Phi)
+			if !ok {
+				return
+			}
+			if k, isK := constInt(ia.Index); !isK || k != 0 {
+				return
+			}
+			fromSnap, adv := false, true
+			for _, e := range phi.Edges {
+				if e == snap {
+					fromSnap = true
+					continue
+				}
+				sl, isSl := e.(*ssa.Slice)
+				if !isSl || sl.X != ssa.Value(phi) || sl.High != nil || sl.Max != nil {
+					adv = false
+					continue
+				}
+				if k, isK := constInt(sl.Low); !isK || k != 1 {
+					adv = false
+				}
+			}
+			if fromSnap && adv {
+				cursor = phi
+				invs = append(invs, inv{call, ia.Index})
+			}
+		})
+	}
 	if len(invs) != 1 {
 		rr.Undecided(key+"/loop", f.Pos(), "expected exactly one invocation of snapshot[i] in the Retry task, found %d (unrecognised iteration idiom)", len(invs))
 		return
 	}
 	iv := invs[0]
+	// tailOf: the spread operand denotes (remaining sequence)[d:] where element 0 is the entry just invoked
+	tailOf := func(v ssa.Value) (d int64, whole bool, ok bool) {
+		if v == snap {
+			return 0, true, true
+		}
+		if cursor != nil && v == ssa.Value(cursor) {
+			return 0, false, true
+		}
+		sl, isSl := v.(*ssa.Slice)
+		if !isSl || sl.High != nil || sl.Max != nil {
+			return 0, false, false
+		}
+		switch {
+		case cursor != nil && sl.X == ssa.Value(cursor):
+			if sl.Low == nil {
+				return 0, false, true
+			}
+			if k, isK := constInt(sl.Low); isK {
+				return k, false, true
+			}
+		case cursor == nil && sl.X == snap:
+			if sl.Low == nil {
+				return 0, true, true
+			}
+			if d, ok := offsetFrom(sl.Low, iv.idx); ok {
+				return d, false, true
+			}
+		}
+		return 0, false, false
+	}
 	// ascending iteration from 0: idx is phi(0, idx+1) or (phi(-1, ·)+1)
 	if mode != "exact" && mode != "order" {
 		// order is not a concern of this property
+	} else if cursor != nil {
+		rr.OK(key+"/order", iv.call.Pos(), "the head of the remaining entries is invoked and the remainder advances by one")
 	} else if !ascendingFromZero(iv.idx) {
 		rr.Bad(key+"/order", iv.call.Pos(), "queued entries are not retried in ascending queue order starting at the first")
 	} else {
@@ -193,15 +269,8 @@ func (c *Ctx) ruleRetryRequeue(rr *RuleRep, rr18 *RuleRep, modeOpt ...string) {
 				}
 			}
 			if e.Spread != nil {
-				if e.Spread == snap {
+				if d, whole, ok := tailOf(e.Spread); ok && (whole || d <= 1) {
 					hasTail = true
-				}
-				if sl, ok := e.Spread.(*ssa.Slice); ok && sl.X == snap && sl.High == nil && sl.Max == nil {
-					if sl.Low == nil {
-						hasTail = true
-					} else if d, ok := offsetFrom(sl.Low, iv.idx); ok && d <= 1 {
-						hasTail = true
-					}
 				}
 			}
 		}
@@ -253,32 +322,29 @@ func (c *Ctx) ruleRetryRequeue(rr *RuleRep, rr18 *RuleRep, modeOpt ...string) {
 		}
 	}
 	// tail = snapshot[idx+1:]
-	sl, ok := seq[1].Spread.(*ssa.Slice)
+	tpos := stores[len(stores)-1].Pos()
+	d, whole, okT := tailOf(seq[1].Spread)
 	switch {
-	case !ok || sl.X != snap:
-		if seq[1].Spread == snap && mode == "order" {
-			rr.OK(key+"/requeue-tail", stores[len(stores)-1].Pos(), "tail keeps the snapshot's order (duplicates are not this property's concern)")
-		} else if seq[1].Spread == snap {
-			rr.Bad(key+"/requeue-tail", stores[len(stores)-1].Pos(), "the whole snapshot is re-queued after a failure: entries that already completed (and the failed one) are transmitted again — a QoS 2 message is sent after its PUBCOMP")
-		} else {
-			rr.Bad(key+"/requeue-tail", stores[len(stores)-1].Pos(), "the re-queued tail is not a suffix of the snapshot")
-		}
-	case sl.High != nil || sl.Max != nil:
-		rr.Bad(key+"/requeue-tail", sl.Pos(), "the re-queued tail is truncated: queued requests are lost")
-	default:
-		d, ok := offsetFrom(sl.Low, iv.idx)
-		switch {
-		case !ok:
+	case !okT:
+		if sl, isSl := seq[1].Spread.(*ssa.Slice); isSl && (sl.High != nil || sl.Max != nil) {
+			rr.Bad(key+"/requeue-tail", sl.Pos(), "the re-queued tail is truncated: queued requests are lost")
+		} else if isSl && (sl.X == snap || (cursor != nil && sl.X == ssa.Value(cursor))) {
 			rr.Undecided(key+"/requeue-tail", sl.Pos(), "cannot relate the tail's low bound to the index of the failed entry")
-		case d == 1:
-			rr.OK(key+"/requeue-tail", sl.Pos(), "tail = snapshot[i+1:] with i the index of the failed entry")
-		case d <= 0 && mode == "order":
-			rr.OK(key+"/requeue-tail", sl.Pos(), "tail is a suffix of the snapshot containing every unattempted entry, in order")
-		case d <= 0:
-			rr.Bad(key+"/requeue-tail", sl.Pos(), "the re-queued tail starts at i%+d: the entry that just failed (and was replaced by its continuation) is queued again — after PUBREL/PUBCOMP the original PUBLISH would be re-sent", d)
-		default:
-			rr.Bad(key+"/requeue-tail", sl.Pos(), "the re-queued tail starts at i+%d: %d queued request(s) after the failed one are dropped", d, d-1)
+		} else {
+			rr.Bad(key+"/requeue-tail", tpos, "the re-queued tail is not a suffix of the snapshot")
 		}
+	case whole && mode == "order":
+		rr.OK(key+"/requeue-tail", tpos, "tail keeps the snapshot's order (duplicates are not this property's concern)")
+	case whole:
+		rr.Bad(key+"/requeue-tail", tpos, "the whole snapshot is re-queued after a failure: entries that already completed (and the failed one) are transmitted again — a QoS 2 message is sent after its PUBCOMP")
+	case d == 1:
+		rr.OK(key+"/requeue-tail", tpos, "tail = the entries after the failed one")
+	case d <= 0 && mode == "order":
+		rr.OK(key+"/requeue-tail", tpos, "tail is a suffix of the snapshot containing every unattempted entry, in order")
+	case d <= 0:
+		rr.Bad(key+"/requeue-tail", tpos, "the re-queued tail starts at i%+d: the entry that just failed (and was replaced by its continuation) is queued again — after PUBREL/PUBCOMP the original PUBLISH would be re-sent", d)
+	default:
+		rr.Bad(key+"/requeue-tail", tpos, "the re-queued tail starts at i+%d: %d queued request(s) after the failed one are dropped", d, d-1)
 	}
 	// C18: report + flag on the failure edge
 	if rr18 != nil {
